@@ -31,6 +31,11 @@ CHECKS = {
         "note": "Trusted: TLA+ transcription of RFC 6962 2.1 and of the documented write order; hashes as free terms; 32-bit TLC integers bound coordinates to < 2^30; base64/strconv trusted.",
         "technique": TLA + "state-by-state replay of the log specification into tlog and trace validation of recorded appends",
     },
+    "C10": {
+        "text": "Bounded-exhaustive fault enumeration by model checking: the tile reader is a TLA+ state machine against an adversarial tile server; TLC explores every tree size <=12/20, height 1-3, every requested position (pairs for small trees) and every corruption of one (two) planned tile(s), checks the three observer invariants, and the faulty authentication variant must yield a counterexample; every terminal state is replayed into tlog.TileHashReader with real trees and bytes; path bijection and publisher sufficiency likewise; random reads on trees up to 3000 records and heights 1-8 are trace-validated.",
+        "note": "Trusted: TLA+ transcription of the tile layout; hashes as free terms; distinct records; refmerkle builds the honest world. Bounds: tree size, heights, one or two corrupted tiles per read.",
+        "technique": TLA + "adversarial reader state machine explored by TLC, terminal states replayed into the code, recorded reads trace-validated",
+    },
 }
 
 NOT_APPLICABLE = {}
